@@ -2602,6 +2602,7 @@ impl<'a> Socket<'a> {
         };
 
         let mut is_zero_window_probe = false;
+        let mut is_fast_retransmit = false;
 
         match self.state {
             // We transmit an RST in the CLOSED state. If we ended up in the CLOSED state
@@ -2658,7 +2659,9 @@ impl<'a> Socket<'a> {
                     repr.seq_number = self.local_seq_no;
                     repr.payload = self.tx_buffer.get_allocated(0, size);
 
-                    self.pending_fast_retransmit = false;
+                    // `pending_fast_retransmit` is cleared once the segment has really
+                    // been handed to the device (see below).
+                    is_fast_retransmit = true;
 
                     0
                 } else {
@@ -2774,6 +2777,13 @@ impl<'a> Socket<'a> {
         // for sure will not be successfully transmitted.
         ip_repr.set_payload_len(repr.buffer_len());
         emit(cx, (ip_repr, repr))?;
+
+        // The fast retransmission is on its way. Had `emit` failed, the flag would still be
+        // set and `seq_to_transmit()` would ask for another attempt; clearing it any earlier
+        // leaves the lost segment with neither a pending retransmission nor a timer.
+        if is_fast_retransmit {
+            self.pending_fast_retransmit = false;
+        }
 
         // We've sent something, whether useful data or a keep-alive packet, so rewind
         // the keep-alive timer.
